@@ -117,6 +117,67 @@ func init() {
 		} else {
 			c.Fail("C40c/StakeReq.Score/stake-when-positive-else-one", c.P.Pos(ss.Pos()), "the stake score is no longer the provider's positive total stake (or 1): a provider can get weight zero")
 		}
+		c.Rule("C40d scores are recomputed when a slot's requirement changes: PairingSlotGroup.Subtract puts a requirement into the difference both when the other group lacks its key and when the other group's requirement for that key is not Equal; C40e geo cost: GeoReq.Score → CalcGeoCost → CalcGeoLatency pass (required geolocation, provider geolocations) in that order, and the latency is looked up as GEO_LATENCY_MAP[required][provider]")
+		if sub := c.Fn(scK + "PairingSlotGroup.Subtract"); sub != nil {
+			absent, differs := false, false
+			ir.EachInstr(sub, func(in ssa.Instruction) {
+				mu, ok := in.(*ssa.MapUpdate)
+				if !ok {
+					return
+				}
+				for _, f := range ir.GuardFacts(mu) {
+					if strings.HasPrefix(f, "!") && strings.Contains(f, ".Reqs[") && strings.HasSuffix(f, "#1") {
+						absent = true
+					}
+					if strings.HasPrefix(f, "!invoke("+scK+"ScoreReq.Equal)(") {
+						differs = true
+					}
+				}
+			})
+			if absent && differs {
+				c.OK("C40d/PairingSlotGroup.Subtract/diff=absent-or-not-equal", c.P.Pos(sub.Pos()), "")
+			} else {
+				c.Fail("C40d/PairingSlotGroup.Subtract/diff=absent-or-not-equal", c.P.Pos(sub.Pos()), "a requirement present in both slot groups with a different value (another geolocation) is no longer in the difference: its score component is never recomputed for the later slots")
+			}
+		}
+		if cg := c.Fn(scK + "CalcGeoCost"); cg != nil {
+			sites := c.CallsByName(cg, false, scK+"CalcGeoLatency")
+			ok := len(sites) == 1
+			for _, s := range sites {
+				call := ir.CallOf(s.Instr)
+				if ir.Desc(call.Args[0]) != "param#0" || ir.Desc(call.Args[1]) != "param#1" || innermostLoop(cg, s.Instr.Block()) != nil {
+					ok = false
+				}
+			}
+			if ok {
+				c.OK("C40e/CalcGeoCost/CalcGeoLatency(required,providers)", c.P.Pos(cg.Pos()), "")
+			} else {
+				c.Fail("C40e/CalcGeoCost/CalcGeoLatency(required,providers)", c.P.Pos(cg.Pos()), "CalcGeoLatency is not called once with (required geolocation, provider geolocations): the latency table is keyed by the required geolocation and is not symmetric")
+			}
+		}
+		if cl := c.Fn(scK + "CalcGeoLatency"); cl != nil {
+			okLookup := false
+			ir.EachInstr(cl, func(in ssa.Instruction) {
+				if lk, ok := in.(*ssa.Lookup); ok && strings.Contains(ir.Desc(lk.X), "GEO_LATENCY_MAP") && ir.Desc(lk.Index) == "param#0" {
+					okLookup = true
+				}
+			})
+			if okLookup {
+				c.OK("C40e/CalcGeoLatency/table[required][provider]", c.P.Pos(cl.Pos()), "")
+			} else {
+				c.Fail("C40e/CalcGeoLatency/table[required][provider]", c.P.Pos(cl.Pos()), "the latency table is not indexed first by the required geolocation")
+			}
+		}
+		if gs := c.Fn(scK + "GeoReq.Score"); gs != nil {
+			for _, s := range c.CallsByName(gs, false, scK+"CalcGeoCost") {
+				call := ir.CallOf(s.Instr)
+				if strings.Contains(ir.Desc(call.Args[0]), "recv.Geo") && strings.Contains(ir.Desc(call.Args[1]), ".Provider.Geolocation") {
+					c.OK("C40e/GeoReq.Score/CalcGeoCost(slot-geo,provider-geos)", c.P.InstrPos(s.Instr), "")
+				} else {
+					c.Fail("C40e/GeoReq.Score/CalcGeoCost(slot-geo,provider-geos)", c.P.InstrPos(s.Instr), "CalcGeoCost("+trunc(ir.Desc(call.Args[0]), 60)+", "+trunc(ir.Desc(call.Args[1]), 60)+")")
+				}
+			}
+		}
 		c.NotCovered("proportionality within statistical tolerance over epoch hashes; geo score values; rounding of scores below one; mixed-filter slots")
 	})
 }
